@@ -71,6 +71,7 @@ def parse_int(value: str) -> int:
             v = float(value)
         except Exception as e:
             odxraise(f"Error parsing numerical value '{value}': {e}")
+            return 0
 
         if not v.is_integer():
             odxraise(f"Expected an integer value, got {v}")
